@@ -13,6 +13,8 @@ TRUSTED = [
     "hand model models/EnvHistory.v (family of persistent walkers) and models/WalkerFail.v (one-shot substituter) over core/DagWalk.v, tied by correspondence: every walk() of every environment-wide walker during a history is recorded (callback order, loop iterations, stack, memo keys) and replayed in the model",
     "twin run: the probe formula alone, built in a fresh Environment; results compared up to the order of commutative arguments and the names of fresh symbols (harness/walkgen.py: canon, rename_fresh)",
     "aliasing of mutable cached answers (Theory objects in the TheoryOracle memo) is outside the functional model: it is checked on the implementation by (a) the twin comparison and (b) a snapshot of every memo table after every call of the history (an entry, once stored, must never change)",
+    "sort-level aliasing: applications f(a1..an) whose argument and result sorts coincide (12 sorts incl. arrays, BV, custom; arity 1..3, bare symbols, nested, predicates, array values) followed by a panel of small formulas over NEW symbols of the sorts seen (plain, quantified, UF, select/store, arithmetic), each compared with its answer alone in a fresh Environment",
+    "argument histories: substitute(f1, map1) failing midway at every child position or succeeding, inside / outside / under nested binders, followed by substitute(f2, map2) on an overlapping formula (MG and a long-lived MS substituter), compared with a fresh Environment",
     "hash-consing (equal structure = same object) is C04's theorem; here it is used through `is` on repeated calls",
 ]
 ASSUMPTIONS = [
@@ -319,6 +321,267 @@ def aliasing_replay(k, probe_kind):
     return 1 if c.v else 0
 
 
+# ---------------------------------------------------------------------------------------------
+# Sort-level aliasing: applications whose argument sorts and result sort coincide, then a panel
+# of small formulas that share only the SORT with the history (C14-C class)
+# ---------------------------------------------------------------------------------------------
+
+def _sorts(env):
+    from pysmt.typing import BOOL, INT, REAL, STRING
+    tm = env.type_manager
+    U = tm.Type("U")
+    aii = tm.ArrayType(INT, INT)
+    return [("Bool", BOOL), ("Int", INT), ("Real", REAL), ("BV8", tm.BVType(8)), ("BV16", tm.BVType(16)), ("String", STRING),
+            ("U", U), ("Array_Int_Int", aii), ("Array_BV8_BV8", tm.ArrayType(tm.BVType(8), tm.BVType(8))),
+            ("Array_Int_Array", tm.ArrayType(INT, aii)), ("Array_U_U", tm.ArrayType(U, U)), ("Array_Int_Bool", tm.ArrayType(INT, BOOL))]
+
+
+def _eq(m, a, b):
+    return m.Iff(a, b) if a.get_type().is_bool_type() else m.Equals(a, b)
+
+
+def sort_panel(env, sname, S):
+    """Small formulas over NEW symbols of sort S: with and without UF, quantifier, arithmetic."""
+    from pysmt.typing import INT
+    m, tm = env.formula_manager, env.type_manager
+    c, c2 = m.Symbol("pn_%s_c" % sname, S), m.Symbol("pn_%s_d" % sname, S)
+    out = [("eq", _eq(m, c, c2)), ("quantified", m.Exists([c], _eq(m, c, c2))),
+           ("uf", _eq(m, m.Function(m.Symbol("pn_%s_h" % sname, tm.FunctionType(S, [S])), [c]), c2))]
+    if S.is_array_type():
+        i = m.Symbol("pn_%s_i" % sname, S.index_type)
+        e = m.Symbol("pn_%s_e" % sname, S.elem_type)
+        out += [("select", _eq(m, m.Select(c, i), e)), ("store", m.Equals(m.Store(c, i, e), c2))]
+    elif S.is_int_type() or S.is_real_type():
+        out.append(("arith", m.LT(m.Plus(c, c2), c)))
+    elif S.is_bv_type():
+        out.append(("arith", m.BVULT(m.BVAdd(c, c2), c)))
+    elif S.is_string_type():
+        out.append(("arith", m.Equals(m.StrLength(c), m.Int(1))))
+    return out
+
+
+def same_sort_histories(env, sname, S):
+    """History formulas: applications f(a1..an) with every argument a bare symbol of S and result
+    sort S (arity 1..3, distinct and repeated arguments, nested, predicates, mixed, array values)."""
+    from pysmt.typing import BOOL, INT
+    m, tm = env.formula_manager, env.type_manager
+    a = [m.Symbol("hs_%s_%d" % (sname, k), S) for k in range(3)]
+    out = []
+    for n in (1, 2, 3):
+        f = m.Symbol("hs_%s_f%d" % (sname, n), tm.FunctionType(S, [S] * n))
+        out.append(("f%d(distinct symbols)" % n, _eq(m, m.Function(f, a[:n]), a[0])))
+        out.append(("f%d(one symbol)" % n, _eq(m, m.Function(f, [a[0]] * n), a[0])))
+        pr = m.Symbol("hs_%s_p%d" % (sname, n), tm.FunctionType(BOOL, [S] * n))
+        out.append(("pred%d" % n, m.Function(pr, a[:n])))
+    f2 = m.Symbol("hs_%s_f2" % sname, tm.FunctionType(S, [S, S]))
+    out.append(("f2 nested", _eq(m, m.Function(f2, [m.Function(f2, [a[0], a[1]]), a[2]]), a[0])))
+    g = m.Symbol("hs_%s_g" % sname, tm.FunctionType(S, [S, INT]))
+    out.append(("g(S, Int)", _eq(m, m.Function(g, [a[0], m.Symbol("hs_i", INT)]), a[1])))
+    out.append(("ite", _eq(m, m.Ite(m.Symbol("hs_c", BOOL), a[0], a[1]), a[2])))
+    if S.is_array_type():
+        e = [m.Symbol("hs_%s_e%d" % (sname, k), S.elem_type) for k in range(2)]
+        out.append(("constant array", m.Equals(m.Array(S.index_type, e[0]), a[0])))
+        out.append(("store chain", m.Equals(m.Store(m.Store(a[0], m.Symbol("hs_%s_i" % sname, S.index_type), e[0]),
+                                                    m.Symbol("hs_%s_j" % sname, S.index_type), e[1]), a[1])))
+    return out
+
+
+_FRESH_PANEL = {}
+
+
+def _ask(fn):
+    try:
+        return str(fn())
+    except Exception as ex:        # noqa: e.g. NoLogicAvailableError is an answer too
+        return "raise " + type(ex).__name__
+
+
+def fresh_panel_answers(sname, idx):
+    """Answers of the panel for sort number idx, each formula alone in its own fresh Environment."""
+    from pysmt.environment import Environment
+    import pysmt.oracles as orc
+    if sname not in _FRESH_PANEL:
+        n = len(sort_panel(Environment(), sname, _sorts(Environment())[idx][1]))
+        res = []
+        for k in range(n):
+            e = Environment()
+            S = _sorts(e)[idx][1]
+            lbl, f = sort_panel(e, sname, S)[k]
+            res.append((lbl, _ask(lambda: e.theoryo.get_theory(f)), _ask(lambda: orc.get_logic(f, e))))
+        _FRESH_PANEL[sname] = res
+    return _FRESH_PANEL[sname]
+
+
+def sort_aliasing(chk, only=None):
+    from pysmt.environment import Environment
+    import pysmt.oracles as orc
+    nsorts = len(_sorts(Environment()))
+    for idx in range(nsorts):
+        sname = _sorts(Environment())[idx][0]
+        nh = len(same_sort_histories(Environment(), sname, _sorts(Environment())[idx][1]))
+        for hk in range(nh):
+            for first_query in ("logic", "theory"):
+                if only is not None and only != (idx, hk, first_query):
+                    continue
+                env = Environment()
+                sorts = _sorts(env)
+                S = sorts[idx][1]
+                hlabel, H = same_sort_histories(env, sname, S)[hk]
+                rec = Recorder("theoryo", env.theoryo, "plain", True, False)
+                hist_answer = _ask(lambda: orc.get_logic(H, env)) if first_query == "logic" else _ask(lambda: env.theoryo.get_theory(H))
+                # sorts seen so far: S and the sorts it is made of
+                seen = [idx] + [j for j, (nm, T) in enumerate(sorts) if S.is_array_type() and T in (S.index_type, S.elem_type)]
+                bad = None
+                for j in seen:
+                    pname, P = sorts[j]
+                    fresh = fresh_panel_answers(pname, j)
+                    for k, (lbl, f) in enumerate(sort_panel(env, pname, P)):
+                        got = (lbl, _ask(lambda: env.theoryo.get_theory(f)), _ask(lambda: orc.get_logic(f, env)))
+                        chk.count(("sort-panel", sname, hlabel, first_query, pname, lbl))
+                        if got != fresh[k] and bad is None:
+                            bad = (pname, lbl, walkgen.canon(f), got, fresh[k])
+                rec.check_memo_stable("panel after get_%s(%s)" % (first_query, hlabel))
+                rep = {"kind": "history", "repro": "harness.c14.sort_aliasing_replay(%d, %d, %r)" % (idx, hk, first_query),
+                       "history": ["get_%s(%s) = %s" % (first_query, walkgen.canon(H), hist_answer)]}
+                if bad:
+                    rep["history"].append("get_theory / get_logic(%s)" % bad[2])
+                    chk.violation(dict(rep, what="the theory/logic detected for a formula that shares only the SORT %s with an earlier query (%s over sort %s) "
+                                       "differs from a fresh environment: a cached Theory object was changed after it was handed out" % (bad[0], hlabel, sname),
+                                       after_history=list(bad[3]), fresh=list(bad[4])), key="aliasing:sort:%s:%s" % (sname, hlabel))
+                elif rec.problems:
+                    chk.violation(dict(rep, what=rec.problems[0]), key="aliasing:sort-memo:%s:%s" % (sname, hlabel))
+
+
+def sort_aliasing_replay(idx, hk, first_query):
+    warnings.simplefilter("ignore")
+    c = _MiniChk()
+    sort_aliasing(c, only=(idx, hk, first_query))
+    return 1 if c.v else 0
+
+
+class _MiniChk(object):
+    def __init__(self):
+        self.v, self.cov = [], {}
+
+    def count(self, *a, **kw):
+        pass
+
+    def violation(self, rep, key=None, found_input=True):
+        self.v.append(key)
+        print("key=%s: %s" % (key, rep.get("what")))
+        for k in ("history", "after_history", "fresh", "differences"):
+            if rep.get(k):
+                print("   %s: %s" % (k, rep[k]))
+
+
+# ---------------------------------------------------------------------------------------------
+# Operations with an argument besides the formula: (call with arg1, failing midway | succeeding)
+# -> (overlapping formula with arg2), inside and outside binders (C14-D class)
+# ---------------------------------------------------------------------------------------------
+
+BINDERS = ("none", "exists", "forall", "nested")
+ATOMS = ("x", "y", "z", "w", "p", "xy")
+
+
+def _binder_setup(env, atoms1, atoms2, b1, b2):
+    from pysmt.typing import BOOL, INT
+    m = env.formula_manager
+    x, y, z, w, q, q2 = [m.Symbol(n, INT) for n in ("x", "y", "z", "w", "q", "q2")]
+    p = m.Symbol("p", BOOL)
+    pool = {"x": m.LT(m.Plus(x, q), m.Int(5)), "y": m.Equals(y, q), "z": m.LE(z, q), "w": m.LT(m.Times(w, m.Int(2)), m.Plus(x, q)),
+            "p": m.Iff(p, m.LT(q, m.Int(3))), "xy": m.LE(m.Plus(x, y), q), "x8": m.LT(m.Plus(x, q), m.Int(8))}
+    syms = {"x": x, "y": y, "z": z, "w": w, "p": p}
+
+    def bind(b, body):
+        if b == "exists":
+            return m.Exists([q], body)
+        if b == "forall":
+            return m.ForAll([q], body)
+        if b == "nested":
+            return m.Exists([q2], m.And(m.LT(q2, x), m.ForAll([q], body)))
+        return body
+    f1 = bind(b1, m.And([pool[a] for a in atoms1]))
+    f2 = bind(b2, m.And([pool[a] for a in atoms2]))
+    return m, syms, f1, f2
+
+
+def _binder_maps(m, syms, atoms1, fail_at, map2_kind):
+    """map1 sends every free symbol of the atoms to a constant; with fail_at it is ill-typed for
+    the symbols of that atom (Int symbol -> Real constant, Bool symbol -> Int constant)."""
+    owner = {"x": "x", "y": "y", "z": "z", "w": "w", "p": "p", "xy": "y", "x8": "x"}
+    map1 = {}
+    for k, a in enumerate(atoms1):
+        s = syms[owner[a]]
+        map1[s] = m.TRUE() if owner[a] == "p" else m.Int(k + 1)
+    if fail_at is not None:
+        s = syms[owner[atoms1[fail_at]]]
+        map1[s] = m.Int(1) if owner[atoms1[fail_at]] == "p" else m.Real(2)
+    map2 = {0: {syms["z"]: m.Int(3)}, 1: {syms["x"]: syms["w"]}, 2: {syms["y"]: m.Int(9), syms["w"]: m.Int(4)}, 3: {}}[map2_kind]
+    return map1, map2
+
+
+def binder_arg_histories(chk, rnd, count):
+    from pysmt.environment import Environment
+    import pysmt.substituter as sb
+    configs = []
+    for b1 in BINDERS:
+        for b2 in BINDERS:
+            for fail_at in (0, 1, 2, None):
+                for which in ("MG", "MS"):
+                    configs.append((b1, b2, fail_at, which))
+    rnd.shuffle(configs)
+    reps = max(1, count // len(configs))
+    for (b1, b2, fail_at, which) in configs:
+        for _ in range(reps):
+            atoms1 = rnd.sample(ATOMS, 3)
+            atoms2 = rnd.sample(ATOMS, 2) + [rnd.choice(["x8", "x", "w"])]
+            rnd.shuffle(atoms2)
+            map2_kind = rnd.randrange(4)
+            run_binder_history(chk, atoms1, atoms2, b1, b2, fail_at, which, map2_kind)
+
+
+def run_binder_history(chk, atoms1, atoms2, b1, b2, fail_at, which, map2_kind):
+    from pysmt.environment import Environment
+    import pysmt.substituter as sb
+    res = []
+    for with_history in (True, False):
+        env = Environment()
+        m, syms, f1, f2 = _binder_setup(env, atoms1, atoms2, b1, b2)
+        map1, map2 = _binder_maps(m, syms, atoms1, fail_at, map2_kind)
+        sub = env.substituter if which == "MG" else sb.MSSubstituter(env)
+        first = None
+        if with_history:
+            try:
+                first = ("ok", walkgen.canon(sub.substitute(f1, map1)))
+            except Exception as ex:        # noqa
+                first = ("raise", type(ex).__name__)
+        desc = (walkgen.canon(f1), walkgen.canon(f2), walkgen.canon_value(map1), walkgen.canon_value(map2))
+        try:
+            r = sub.substitute(f2, map2)
+            r2 = sub.substitute(f2, map2)
+            res.append((first, ("ok", walkgen.canon(r)), r is r2) + desc)
+        except Exception as ex:        # noqa
+            res.append((first, ("raise", type(ex).__name__), True) + desc)
+    used, fresh = res
+    chk.count(("binder-arg", tuple(atoms1), tuple(atoms2), b1, b2, fail_at, which, map2_kind))
+    if (fail_at is not None) != (used[0][0] == "raise"):
+        chk.cov["binder_arg_unexpected_first"] = chk.cov.get("binder_arg_unexpected_first", 0) + 1
+    if used[1] != fresh[1] or not used[2]:
+        chk.violation({"kind": "history", "what": "substitute with a second map returns a result that depends on the earlier call with another map "
+                       "(first call %s, %s substituter, binders %s -> %s)" % ("raised midway at child %s" % fail_at if fail_at is not None else "succeeded", which, b1, b2),
+                       "history": ["substitute(%s, %s) -> %s" % (used[3], used[5], used[0]), "substitute(%s, %s)" % (used[4], used[6])],
+                       "after_history": list(used[1]), "fresh": list(fresh[1]), "repeat_same_object": used[2],
+                       "repro": "harness.c14.replay_binder(%r, %r, %r, %r, %r, %r, %r)" % (atoms1, atoms2, b1, b2, fail_at, which, map2_kind)},
+                      key="arg-history:substitute:%s:%s:%s" % (which, b1, b2))
+
+
+def replay_binder(*a):
+    warnings.simplefilter("ignore")
+    c = _MiniChk()
+    run_binder_history(c, *a)
+    return 1 if c.v else 0
+
+
 def run(tier):
     chk = lib.Check("C14", tier)
     rnd = random.Random(chk.seed)
@@ -351,6 +614,8 @@ def run(tier):
             chk.sample({"history": replay["history"], "probe": replay["probe"], "rows": len(replay["recipe"])})
     chk.note("histories %d (skipped because a call of the history raised: %d)" % (done, skipped))
     aliasing_directed(chk)
+    sort_aliasing(chk)
+    binder_arg_histories(chk, rnd, 512 if tier == "quick" else 4096)
 
     lib.clean_cases(chk.dir)
     files, per = [], 60
@@ -423,6 +688,6 @@ def replay(path):
     r = json.load(open(path))
     print(json.dumps(r, indent=1)[:3000])
     rep = r.get("repro", "")
-    if rep.startswith("harness.c14.replay_history(") or rep.startswith("harness.c14.aliasing_replay("):
+    if rep.startswith("harness.c14."):
         return eval(rep[len("harness.c14."):])
     return run("quick")
